@@ -273,14 +273,20 @@ def run_multi_files(ctx):
     for n_ in (2, 3):
         for combo in itertools.product([True, False], repeat=n_):
             d = os.path.join(ctx.wd, 'mf%d' % k); k += 1
-            files = {'pol/r.guard': 'rule t {\n  x == 1\n}\nrule u when y exists {\n  y == 2\n}\n'}
+            # rules files whose names sort before and after "tests" (the --dir walk is sorted and descends into tests/ on its
+            # way), and a second rules file with its own specs in the same directory
+            stem = ['r', 'vpc', 'api', 'waf', 'Zeta', 'tf_x'][k % 6]
+            files = {'pol/%s.guard' % stem: 'rule t {\n  x == 1\n}\nrule u when y exists {\n  y == 2\n}\n',
+                     'pol/other.guard': 'rule o {\n  x exists\n}\n',
+                     'pol/tests/other_tests.yaml': json.dumps([{'name': 'othercase', 'input': {'x': 1}, 'expectations': {'rules': {'o': 'PASS'}}}])}
             for i, met in enumerate(combo):
                 spec = [{'name': 'case%d' % i, 'input': {'x': 1}, 'expectations': {'rules': {'t': 'PASS' if met else 'FAIL', 'u': 'SKIP'}}}]
-                files['pol/tests/r_%d_tests.yaml' % i] = json.dumps(spec)
+                files['pol/tests/%s_%d_tests.yaml' % (stem, i)] = json.dumps(spec)
+                files['only/%s_%d_tests.yaml' % (stem, i)] = json.dumps(spec)      # the same specs alone, for -t <directory>
             e2e.write_files(d, files)
             for fmt in ('plain', 'json', 'yaml', 'junit'):
                 o = [] if fmt == 'plain' else ['-o', fmt]
-                jobs.append({'args': ['test', '-a', '-r', 'pol/r.guard', '-t', 'pol/tests'] + o, 'cwd': d}); meta.append((combo, 'tdir', fmt))
+                jobs.append({'args': ['test', '-a', '-r', 'pol/%s.guard' % stem, '-t', 'only'] + o, 'cwd': d}); meta.append((combo, 'tdir', fmt))
                 jobs.append({'args': ['test', '-a', '-d', 'pol'] + o, 'cwd': d}); meta.append((combo, 'dir', fmt))
     n = 0
     for (combo, layout, fmt), (code, so, se) in zip(meta, e2e.run_many(jobs)):
